@@ -3,7 +3,7 @@ import os, re, subprocess, hashlib, shutil, glob
 
 ID = 'C10'
 PROFILES = ['debug']
-THEOREMS = ['C10_dump_is_spec', 'C10_dump_read', 'C10_catalog_keys', 'C10_root_node_keys', 'C10_inner_node_keys', 'C10_page_keys', 'C10_template_keys', 'C10_type_names', 'C10_kids_indirect', 'C10_kid_alternatives', 'C10_recursion_by_name', 'C10_parent_checks', 'C10_rectangles', 'C10_iso_name_lists', 'C10_optional_entries', 'C10_predicates', 'C10_no_pinned_predicates', 'C10_shape']
+THEOREMS = ['C10_dump_is_spec', 'C10_dump_read', 'C10_catalog_keys', 'C10_root_node_keys', 'C10_inner_node_keys', 'C10_page_keys', 'C10_template_keys', 'C10_type_names', 'C10_kids_indirect', 'C10_kid_alternatives', 'C10_recursion_by_name', 'C10_parent_checks', 'C10_rectangles', 'C10_iso_name_lists', 'C10_optional_entries', 'C10_predicates', 'C10_no_pinned_predicates', 'C10_shape', 'C10_accepts_decl', 'C10_rejects_decl', 'C10_accepts', 'C10_rejects_except_known', 'C10_mutation_weaken', 'C10_example_checked', 'C10_any_typed_entries_refuted', 'C10_numtree_pinned_refuted', 'C10_date_pinned_refuted']
 ROOT = os.path.dirname(os.path.dirname(os.path.abspath(__file__)))
 
 SRC_FILES = ['catalog.rs', 'page_tree.rs', 'page.rs', 'common_data_structures.rs', 'name_tree.rs', 'number_tree.rs']
@@ -1030,6 +1030,9 @@ def mutations(doc, rng):
                 other = list(kids)
                 other[i] = I(5)
                 yield mut('kid-int-%d' % i, h, Kids=('A', other))
+                other = list(kids)
+                other[i] = R(990)                      # refers to no object: denotes null
+                yield mut('kid-dangling-%d' % i, h, Kids=('A', other))
                 m = doc.copy()
                 other = list(kids)
                 other[i] = R(m.alloc(D(Type=N('Catalog'))))
@@ -1190,7 +1193,7 @@ RULE = ('random page trees (depth <= 4, fan-out <= 4, <= 60 objects; root node, 
         'conforming values of the declared kinds, direct or behind a reference; keys the specification does not mention) and EVERY '
         'single-rule mutation at EVERY position of a subset of them (drop each required key, add the forbidden /Parent, /Type not a '
         'name / unlisted / another kind, /Count not an integer, /Kids not an array, each kid embedded directly / replaced by an '
-        'integer / by a reference to a non-kid, /Parent not a reference, and for each optional entry present every bad value of its '
+        'integer / by a dangling reference / by a reference to a non-kid, /Parent not a reference, and for each optional entry present every bad value of its '
         'kind: wrong primitive type, unlisted name, rectangle of 0/3/5 or non-numeric members, 15 malformed dates, 13 malformed '
         'name/number trees, required-indirect given directly); every sub-check on its own (sub:<path>): exhaustive one-character '
         'edits of two full date strings, 1400 tree dictionaries x 3 tree positions, all ISO names x 3 name lists + near misses, '
@@ -1271,6 +1274,24 @@ def classify(case, obs):
     return tag + ':' + v
 
 
-LEVEL_TEXT = ''
-LEVEL_NOTE = ''
-TECHNIQUE = ''
+LEVEL_TEXT = ('Coq theorems about the specification DUMPED from catalog_type(&mut tctx) on every run (coq/gen/Shipped.v): (1) it is, '
+              'entry for entry, the specification written by hand in Spec/PageTreeSpec.v (required /Type /Pages /Count /Kids; /Parent '
+              'required on inner nodes and pages, forbidden on the root node and templates; kids = indirect references to inner node | '
+              'page | template, recursion by name; rectangles = 4 numbers; PageMode / PageLayout / Tabs = the ISO 32000 lists; repaired '
+              'date and number-tree predicates) plus 17 individual structural facts; (2) for ALL documents of the Spec grammar (page '
+              'trees of any depth and fan-out, any declared optional entries direct or indirect, any unmentioned keys): every '
+              'well-formed document conforms in the declarative semantics (C10_accepts_decl) and every single-rule violation does '
+              'not (C10_rejects_decl); (3) through the C08 transfer theorems, the checker model accepts every well-formed document '
+              '(C10_accepts) and rejects every single-rule violation not located in an Any-typed dictionary entry '
+              '(C10_rejects_except_known); the model is tied to check_type by a three-way correspondence run (implementation verdict = '
+              'checker-model verdict on the dump; declarative verdict on the dump = what the generated case promises; oracle: '
+              'conforming => accepted, violation => rejected) over random page trees with every mutation at every position')
+LEVEL_NOTE = ('trusted: Coq kernel; the dump path (harness/src/bin/c10dump.rs, harness/src/tcspec.rs Printer, props/c10.py regen: '
+              'predicates are identified by behaviour on ~1600 probes); coq/Model/TypeCheck.v and coq/Spec/Conforms.v (contributor '
+              'atc, validated by C08/C09); coq/Model/ShippedPreds.v (validated by the sub: cases); extraction + ocaml/drv.ml; '
+              'harness/src/bin/c10.rs; the checker-level theorems rest on coq/Proofs/TypeCheckSound.v (C08, contributor atc) and on the '
+              'model = implementation correspondence.  Open known finding: Any-typed dictionary entries (/Parent required-indirect, name trees of '
+              '/Names, number tree of /PageLabels) are never checked (C10_any_typed_entries_refuted)')
+TECHNIQUE = ('translator (run-time dump of the live TypeCheck graph) + Coq: vm_compute for finite facts, induction on the unfolding '
+             'depth / over the document tree for the universally quantified declarative theorems + three-way differential '
+             'correspondence with systematic single-fault injection')
